@@ -12,7 +12,7 @@ E2 = "jetdrv"
 CLAIMED = {
     "C01": dict(engine=E1, design="4/C01",
         technique="exhaustive component sweep of the real decoder: every field group of every DF / type code / register through all its values in windows on fixed backgrounds, plus the complete length law",
-        text="Bounded exhaustive enumeration on the real Message::try_from / from_bytes / Display / Debug and on the 14 Comm-B register readers called directly: the length law (every length 0..=32 x 256 first bytes x 4 fills), all 2^16 leading byte pairs x 2 lengths x 3 fills, six AP formats x (2^14 header codes x 4 + 2^13 altitude/identity codes x 4), DF17 and DF18 (all control fields): all 256 first ME bytes x 8-bit (thorough 14/10-bit) windows at stride 4 over the other 48 bits x 2 backgrounds, each register x 12-bit (thorough 16-bit) windows at stride 4 over all 56 bits x 3 backgrounds (zero, status bits set, accepted exemplar), the joint domains of context-coupled fields (roll x track rate, ground speed x TAS, IAS x Mach, wind speed x direction, both BDS 4,0 selectors), whole DF20/21 frames per exemplar, and complete per-field sweeps (all velocity sign/magnitude pairs on a grid with extremes, all vertical rates, 4096 altitude codes x 13 type codes, all movement x track codes, all character codes, all BDS 6,1/6,2/6,5 codes). Oracle per input: no panic (site recorded), accepted => 7/14 bytes by the DF bit, the three renderings do not panic, a second decode is equal, from_bytes agrees and consumes exactly the frame (1.3e7 inputs quick).",
+        text="Bounded exhaustive enumeration on the real Message::try_from / from_bytes / Display / Debug and on the 14 Comm-B register readers called directly: the length law (every length 0..=32 x 256 first bytes x 4 fills), all 2^16 leading byte pairs x 2 lengths x 3 fills, six AP formats x (2^14 header codes x 4 + 2^13 altitude/identity codes x 4), DF17 and DF18 (all control fields): all 256 first ME bytes x 8-bit (thorough 14/10-bit) windows at stride 4 over the other 48 bits x 2 backgrounds, each register x 12-bit (thorough 16-bit) windows at stride 4 over all 56 bits x 3 backgrounds (zero, status bits set, accepted exemplar), the joint domains of context-coupled fields (roll x track rate, ground speed x TAS, IAS x Mach, wind speed x direction, both BDS 4,0 selectors), whole DF20/21 frames per exemplar, and complete per-field sweeps (all velocity sign/magnitude pairs on a grid with extremes, all vertical rates, 4096 altitude codes x 13 type codes, all movement x track codes, all character codes, all BDS 6,1/6,2/6,5 codes). Oracle per input: no panic (site recorded), accepted => 7/14 bytes by the DF bit, the three renderings do not panic, a second decode is equal, from_bytes agrees and consumes exactly the frame (1.0e7 inputs quick); additionally a fixed list of 26k frames is decoded forwards, backwards and interleaved with unrelated frames and must render identically (no hidden state between calls).",
         note="Trusted: field readers interact only through the contexts swept jointly (stated as an assumption); the claim is every component's full domain on fixed backgrounds, not all 2^112 frames; hangs are bounded only by the wall-clock cap (reported as machinery failure)."),
     "C02": dict(engine=E1, design="4/C02",
         technique="exhaustive enumeration of the CRC state space on the real code against bit-serial polynomial division",
@@ -40,7 +40,7 @@ CLAIMED = {
         note="Trusted: patterns.json as the block table (the property names it); country names are not compared (categories may override them); blocks without a prefix pattern are counted only."),
     "C06": dict(engine=E1, design="4/C06",
         technique="bounded exhaustive exploration of report histories (gap x parity x phase) per trajectory through the real stateful decoder; two-aircraft runs in all merge orders",
-        text="Bounded history exploration of the real cpr::decode_positions (which drives decode_position exactly as jet1090 / decode1090 do): for each of 348 (thorough 468) trajectories (12 start points at the equator, just below NL transitions, the 87-degree edge, near a pole, latitude zone edges, the antimeridian, southern mirrors; 3-8 headings; 0/30/120/140/250/700 kt; airborne, surface and landing-after-k phase plans; receiver reference absent or 0/20/40 NM away) every history of (gap, parity) steps of length <= 3 (thorough 4) over 9 (13) gaps straddling every window constant (-0.3 s swapped stamp, 0 duplicate, 0.4, 9.9/10/10.1, 30, 179.9/180/180.1, 600, 86400 s) plus the gaps after which the aircraft is exactly one airborne or surface CPR zone away (+-2 s), and length 4 (5) over the core gaps: 4.1e6 histories quick, 4.8e8 thorough. Each report is encoded from the trajectory position at its own time by a DO-260B encoder; every attached position must be within 25 m of that position. Two-aircraft runs: trajectory pairs x 128 sequence pairs x all 20 merge orders, solo and interleaved outputs must be identical.",
+        text="Bounded history exploration of the real cpr::decode_positions (which drives decode_position exactly as jet1090 / decode1090 do): for each of 348 (thorough 468) trajectories (12 start points at the equator, just below NL transitions, the 87-degree edge, near a pole, latitude zone edges, the antimeridian, southern mirrors; 3-8 headings; 0/30/120/140/250/700 kt; airborne, surface and landing-after-k phase plans; receiver reference absent or 0/20/40 NM away) every history of (gap, parity) steps of length <= 3 (thorough 4) over 9 (13) gaps straddling every window constant (-0.3 s swapped stamp, -30 s (thorough also -5 / -200 s) swapped delivery after losses, 0 duplicate, 0.4, 9.9/10/10.1, 30, 179.9/180/180.1, 600, 86400 s) plus the gaps after which the aircraft is exactly one airborne or surface CPR zone away (+-2 s), and length 4 (5) over the core gaps: 4.1e6 histories quick, 4.8e8 thorough. Each report is encoded from the trajectory position at its own time by a DO-260B encoder; every attached position must be within 25 m of that position. The same position messages are also carried by DF18, and by DF17 / DF18 alternating under one address, on a sub-catalogue. Two-aircraft runs: trajectory pairs x 128 sequence pairs x all 20 merge orders, solo and interleaved outputs must be identical.",
         note="Trusted: the float DO-260B encoder (reports whose encoded latitude is within 1e-9 degree of an NL transition are fed but not judged); surface reports are only generated within 40 NM of a configured receiver reference and equatorward of 88.5 degrees (beyond that the surface format itself is ambiguous); decoded messages are built from decoder-produced templates with the CPR fields set (conformance with freshly decoded frames is checked at start-up)."),
     "C07": dict(engine=E1, design="4/C07",
         technique="exhaustive enumeration of the decoder's accepted message shapes over the shared frame space; strict JSON reader with duplicate-key detection and a finiteness-probing serde serializer",
@@ -56,11 +56,11 @@ CLAIMED = {
         note="Trusted: the hook (14 added lines: pops the next chunk into the same 1024-byte read buffer); streams are well formed as the property requires; more than 3 cuts or more than 3 isolated 0x1A per frame are outside the bound."),
     "C10": dict(engine=E2, design="4/C10",
         technique="exhaustive enumeration of arrival histories through the real deduplication task (real tokio channels, polled step by step), property invariants on every execution",
-        text="Bounded exhaustive history exploration of the real dedup::deduplicate_messages: every arrival history up to length 4-6 (thorough 5-7) over (2-3 decodable frames + an undecodable one) x 2 receivers x a timestamp grid straddling every window edge x window lengths {0,250,450,500} ms, in arbitrary and in non-decreasing time order (3.5 M executions quick, 2.0e8 thorough). Each history is pushed one arrival at a time into real tokio mpsc channels, the real task is polled on the calling thread and its output drained after every arrival, so the step at which each record leaves is observed. Judged per execution: no reception invented/duplicated/attached to another frame, arrival order inside a record, timestamp = first arrival, nothing emitted before its window closed, every decodable reception whose window certainly closed is out, and for non-decreasing stamps same-frame records >= window apart and output in order of first arrival. A list-based reference model is compared as a second opinion (agreement counted, never a verdict).",
+        text="Bounded exhaustive history exploration of the real dedup::deduplicate_messages: every arrival history up to length 4-6 (thorough 5-7) over (2-3 decodable frames + an undecodable one) x 2 receivers x a timestamp grid straddling every window edge x window lengths {0,250,450,500} ms, in arbitrary and in non-decreasing time order (3.5 M executions quick, 2.0e8 thorough). Each history is pushed one arrival at a time into real tokio mpsc channels, the real task is polled on the calling thread and its output drained after every arrival, so the step at which each record leaves is observed. Judged per execution: no reception invented/duplicated/attached to another frame, arrival order inside a record, timestamp = first arrival, nothing emitted before its window closed, every decodable reception whose window certainly closed is out, and for non-decreasing stamps same-frame records >= window apart and output in order of first arrival. A list-based reference model is compared as a second opinion (agreement counted, never a verdict). Further plans use realistic Unix-time stamps (1.7e9 s), receptions that already carry two metadata entries, three receivers and a window that never closes. The second anchor, the decode1090 binary (which embeds its own copy of the loop and flushes at end of input), is explored as a black box: 38k (thorough 0.6 M) histories are written into one input file per window, each with its own frames and time base, the real binary is run and every output line is attributed back to its history; every decodable reception must come out exactly once, in arrival order, under the right frame and first-arrival timestamp.",
         note="Trusted: timestamps on a grid exact in binary floating point (self-checked); groups still open at end of input need not be emitted; decode_time and wall-clock fields are ignored; channel capacities are pre-sized so the task never blocks on output."),
     "C11": dict(engine=E2, design="4/C11",
         technique="complete enumeration of record kinds x addresses x filter shapes through the real Filters::is_in against the record's own JSON",
-        text="Complete enumeration of a finite case space on the real code: every address-carrying downlink format (DF0/4/5/11 with and without interrogator id/16/17 and DF18 with five control fields x six message kinds/20/21 with and without a register) x 8 (thorough 32) addresses x decoded/undecoded x 7 df-filter shapes x 9 aircraft-filter shapes (absent, empty, shown, other, the transmitted parity field, neighbours of the shown address). Filters::is_in is compared with membership of the df and icao24 members of serde_json::to_value(&record). The filter is a pure function of (DF arm, address field, two lists), so covering every arm with every list shape decides it.",
+        text="Complete enumeration of a finite case space on the real code: every address-carrying downlink format (DF0/4/5/11 with and without interrogator id/16/17 and DF18 with five control fields x six message kinds/20/21 with and without a register) x 8 (thorough 32) addresses x decoded/undecoded x 11 df-filter shapes (incl. other spellings of the number, unsorted lists) x 25 aircraft-filter shapes (absent, empty, shown, other, the transmitted parity field, neighbours of the shown address, lists of three addresses in all six orders with and without the shown one, lists of four). Filters::is_in is compared with membership of the df and icao24 members of serde_json::to_value(&record). The filter is a pure function of (DF arm, address field, two lists), so covering every arm with every list shape decides it.",
         note="Trusted: frames come from the harness's own bit-level builder (checked: the decoder must accept each); list order/duplicates are not part of the property."),
     "C12": dict(engine=E2, design="4/C12",
         technique="exhaustive enumeration of record histories through the real update_snapshot on the real application state; reference table and projection (solo replay) equality",
@@ -76,8 +76,8 @@ CLAIMED = {
         note="Trusted: 'well-formed' means an explicit scheme with host and port (or the documented ':port' and 'rtlsdr:' forms); scheme-less 'host:port' is answered with Err by the parser and is only enumerated for totality; websocket table URLs are written with explicit port and path."),
     "C17": dict(engine=E2, design="4/C17",
         technique="explicit-state breadth-first search of the UI state graph through the real update() handler, invariants on every transition",
-        text="Explicit-state model checking on the implementation: BFS over (rows, selected, quit, search mode, sort key, sort order, query length class, width) for 0..4 (thorough 0..6) rows from main()'s initial state and from every consistent non-initial state, applying 37 events (all documented keys, undocumented keys, ticks, error) through the real update() on a real tokio MutexGuard<Jet1090> inside catch_unwind; every transition is judged (no panic, selection in range, each flag changes only on its documented key outside/inside search mode). The reachable graph is finite and explored completely; an un-abstracted DFS of all event sequences to depth 3 (thorough 5) cross-checks the query abstraction.",
-        note="Trusted: the query-length abstraction (update() never branches on the query content; cross-checked); the table size is fixed during a key sequence, as the property states; rendering (ratatui) is outside this check."),
+        text="Explicit-state model checking on the implementation: BFS over (rows, selected, quit, search mode, sort key, sort order, query length class, width) for 0..4 (thorough 0..6) rows from main()'s initial state and from every consistent non-initial state, applying 37 events (all documented keys, undocumented keys, ticks, error) through the real update() on a real tokio MutexGuard<Jet1090> inside catch_unwind; every transition is judged (no panic, selection in range, each flag changes only on its documented key outside/inside search mode). The reachable graph is finite and explored completely; an un-abstracted DFS of all event sequences to depth 3 (thorough 5) cross-checks the query abstraction. A second phase runs the handler together with the real renderer (table::build_table on a ratatui TestBackend, as the TUI task does: update, then draw) over real state vectors of 0/1/3/4 aircraft, BFS to depth 4 (thorough 7) over 25 events with the search query kept verbatim (<= 3 characters): rendering recomputes the rows from the query, so the table shrinks and grows while keys are pressed; no panic in update or draw, rows = aircraft matching the query, selection inside the rows after every draw, same flag rules.",
+        note="Trusted: the query-length abstraction (update() never branches on the query content; cross-checked); the table size is fixed during a key sequence, as the property states; the renderer is driven on a ratatui TestBackend (no terminal); aircraft rows are given a last-seen time in the future so that they do not age out during a run."),
     "C18": dict(engine=E1, design="4/C18",
         technique="exhaustive enumeration of every nanosecond of the critical intervals and every Unix second, i128 oracle",
         text="Exhaustive bounded enumeration on the real functions: every nanosecond of [0, 18.001 s), every nanosecond around each day boundary, the whole week on a grid, every Unix second 1980..2100 (thorough) against an i128 oracle. The function is piecewise linear with breakpoints only at the enumerated boundaries, so dense coverage of each boundary plus a grid decides it.",
